@@ -225,6 +225,10 @@ func packDomainName(s string, msg []byte, off int, compression compressionMap, c
 	// Compression
 	pointer := -1
 
+	// The (uncompressed) wire length of the name may not exceed
+	// maxDomainNameWireOctets, off0 is where the name starts.
+	off0 := off
+
 	// Emit sequence of counted strings, chopping at dots.
 	var (
 		begin     int
@@ -288,6 +292,11 @@ loop:
 				return len(msg), ErrBuf
 			}
 
+			// this label and the root label must still fit in the name
+			if off-off0+1+labelLen+1 > maxDomainNameWireOctets {
+				return len(msg), ErrLongDomain
+			}
+
 			// Don't try to compress '.'
 			// We should only compress when compress is true, but we should also still pick
 			// up names that can be used for *future* compression(s).
@@ -300,6 +309,10 @@ loop:
 
 					// If compress is true, we're allowed to compress this dname
 					if compress {
+						// the part of the name replaced by the pointer counts too
+						if off-off0+escapedNameLen(s[compBegin:])+1 > maxDomainNameWireOctets {
+							return len(msg), ErrLongDomain
+						}
 						pointer = p // Where to point to
 						break loop
 					}
